@@ -5,7 +5,8 @@ package policy
 // Reference model for C03, written from website/content/docs/concepts/policies.mdx (and, for pagination,
 // community/rfcs/acl-paginated-lists.mdx + release notes 2.6.0). It does not call or copy acl.go.
 //
-// Where the documentation is silent or admits more than one reading the model returns "unclear" (the
+// The order in which list/scan consult the path and the path without its trailing slash is pinned to the
+// staged reading (see Decide). Where the documentation is otherwise silent the model returns "unclear" (the
 // real decision is then only subject to the implementation-only relations: order independence,
 // Capabilities() agreement, deny monotonicity). The places are marked with "DOCS SILENT".
 
@@ -142,7 +143,8 @@ type c03Ref struct {
 	V   c03Verdict
 	Why string // which rule decided / why unclear
 	// pattern selection
-	PatternClear bool   // every reading of the list fallback picks the same pattern
+	PatternClear bool   // always true since the staged fallback order is pinned
+	FallbackOrder string // non-empty: another consultation order of the list/scan fallback would pick another pattern
 	Pattern      string // the winning (namespace-qualified) pattern, "" = none matches
 	NMatch       int    // distinct patterns matching the request path (or, for list/scan, the path without its trailing slash)
 	NGroup       int    // stanzas merged for the winning pattern
@@ -290,7 +292,8 @@ func c03Best(cands []string) (string, bool) {
 	return best, true
 }
 
-// selectPattern under one reading of the (undocumented in detail) list/scan fallback:
+// selectPattern under one consultation order of the list/scan fallback (order 0 "staged" is the pinned,
+// asserted one; 1 and 2 only serve to count how often the order matters):
 //
 //	0 "staged"  exact(P), exact(P'), best non-exact of P, best non-exact of P'
 //	1 "p-first" exact(P), best non-exact of P, exact(P'), best non-exact of P'
@@ -722,36 +725,41 @@ func c03Contains(s []string, x string) bool {
 }
 
 // Decide evaluates one operation of one request against the attached policies.
+//
+// PINNED READING (coordinator decision): the documented principle "an exact match wins over any glob /
+// wildcard match" applies to the list/scan fallback as well, i.e. the staged order
+// exact(P) > exact(P without trailing slash) > best non-exact(P) > best non-exact(P without trailing slash)
+// is asserted (basis: policies.mdx priority note + the comment above the second fallback in acl.go).
+// The other two orders are only evaluated to count how often the order matters.
 func (ix *c03Index) Decide(req c03Req, op string) c03Ref {
 	path := req.NS + req.Path
 	listish := op == "list" || op == "scan"
 	p0 := ix.selectPattern(path, listish, 0)
 	r0 := ix.evalGroup(p0, req, op)
 	r0.NMatch = ix.countMatches(path, listish)
-	if listish && strings.HasSuffix(path, "/") {
-		for reading := 1; reading <= 2; reading++ {
-			if p := ix.selectPattern(path, listish, reading); p != p0 {
-				r := ix.evalGroup(p, req, op)
-				if r.V != r0.V || r.V == c03Unclear || r.LimitMode != r0.LimitMode || r.LimitEq != r0.LimitEq {
-					// DOCS SILENT: the order in which "the path" and "the path without its trailing slash" are consulted.
-					return c03Ref{V: c03Unclear, Why: "list-fallback-order", NMatch: r0.NMatch, Caps: map[string]bool{}}
-				}
-				r0.PatternClear = false
-			}
-		}
-	}
+	r0.FallbackOrder = ix.fallbackOrderMatters(path, listish, p0)
 	return r0
 }
 
-// CapsFor: the capability set the docs give for a path when looked up the way list/scan look it up
-// (ACL.Capabilities is documented, in its own comment, to do so). ok=false when the readings differ.
-func (ix *c03Index) CapsFor(path string) (caps []string, pattern string, ok bool) {
-	p0 := ix.selectPattern(path, true, 0)
-	for reading := 1; reading <= 2; reading++ {
-		if ix.selectPattern(path, true, reading) != p0 {
-			return nil, "", false
-		}
+// fallbackOrderMatters: "" when every consultation order picks the same pattern, otherwise which conflict it is.
+func (ix *c03Index) fallbackOrderMatters(path string, listish bool, p0 string) string {
+	if !listish || !strings.HasSuffix(path, "/") {
+		return ""
 	}
+	if ix.selectPattern(path, listish, 1) != p0 {
+		return "exact-without-slash-vs-nonexact-with-slash"
+	}
+	if ix.selectPattern(path, listish, 2) != p0 {
+		return "nonexact-with-slash-vs-higher-priority-nonexact-without-slash"
+	}
+	return ""
+}
+
+// CapsFor: the capability set for a path when looked up the way list/scan look it up (ACL.Capabilities is
+// documented, in its own comment, to do so), under the pinned staged reading.
+func (ix *c03Index) CapsFor(path string) (caps []string, pattern string, orderMatters string) {
+	p0 := ix.selectPattern(path, true, 0)
+	orderMatters = ix.fallbackOrderMatters(path, true, p0)
 	set := map[string]bool{}
 	for _, st := range ix.group(p0) {
 		for _, c := range st.Caps {
@@ -759,11 +767,11 @@ func (ix *c03Index) CapsFor(path string) (caps []string, pattern string, ok bool
 		}
 	}
 	if set["deny"] || len(set) == 0 {
-		return []string{"deny"}, p0, true
+		return []string{"deny"}, p0, orderMatters
 	}
 	for c := range set {
 		caps = append(caps, c)
 	}
 	sort.Strings(caps)
-	return caps, p0, true
+	return caps, p0, orderMatters
 }
